@@ -45,13 +45,14 @@ class Outcome:
 class Hazard:
     """A condition under which evaluating an expression raises."""
 
-    __slots__ = ("kind", "safe", "node", "what")
+    __slots__ = ("kind", "safe", "node", "what", "state")
 
-    def __init__(self, kind, safe, node=None, what=""):
+    def __init__(self, kind, safe, node=None, what="", state=None):
         self.kind = kind  # KeyError, IndexError, TypeError, Requires, ...
         self.safe = safe  # z3 Bool: evaluation does NOT raise here
         self.node = node
         self.what = what
+        self.state = state  # the state in which the exception is raised, when it differs from the statement's end state
 
 
 class Obligation:
